@@ -65,8 +65,39 @@ def check_case(case, want=("C01",)):
         from ..muxsys import mux_spec
         spec = mux_spec([tuple(x) for x in case["inputs"]], case["pal"], case["rs_list"], below="deep", pol=case["pol"], ig_table=case.get("ig_table", False))
         before = res.stats["nontrivial_rows"]
-        phys.solve_and_check(res, spec, want)
+        if case.get("remux"):
+            from ..muxsys import apply_remux
+            from ..sysmodel import resolve as _res
+            s = build(spec)
+            try:
+                quiet_call(s.solve)
+            except (RuntimeError, ValueError):
+                pass
+            spec = apply_remux(s, spec)
+            try:
+                df, _ = quiet_call(s.solve)
+            except (RuntimeError, ValueError):
+                res.classes.add("raised")
+                return res
+            obs = observe(df)
+            dd = _res(spec)
+            for ph in spec["phases"]:
+                phys.check_phase(res, spec, obs, ph, 25.0, want, dd)
+        else:
+            phys.solve_and_check(res, spec, want)
         res.nontrivial = 1 if res.stats["nontrivial_rows"] > before else 0
+        return res
+    if case.get("tight"):
+        # the caller asks for 1e-10: the returned rows must then satisfy the laws to that order (not merely to the default tolerance)
+        spec = case_spec(case)
+        s = build(spec)
+        try:
+            df, _ = quiet_call(s.solve, vtol=1e-10, itol=1e-10)
+        except (RuntimeError, ValueError):
+            res.classes.add("raised")
+            return res
+        phys.check_phase(res, spec, observe(df), "", 25.0, want, law_rt=1e-8, law_at=5e-8)
+        res.nontrivial = 1
         return res
     spec = case_spec(case)
     ta = case.get("ta", 25.0)
@@ -141,6 +172,8 @@ def gen_cases(tier, want_mirror=True):
                 for pol in (1, -1):
                     yield dict(fam="mux", inputs=[list(x) for x in inputs], pal=pal, rs_list=(k == 3), pol=pol, srs=0.0, n=k)
                 yield dict(fam="mux", inputs=[list(x) for x in inputs], pal=pal, rs_list=False, pol=1, srs=0.0, n=k, ig_table=True)
+                if k == 2:
+                    yield dict(fam="mux", inputs=[list(x) for x in inputs], pal=pal, rs_list=False, pol=1, srs=0.0, n=k, remux=True)
         zero = Trees(SIG_ZERO[0], SIG_ZERO[1], max_one=("MX0",))
         for n in (1, 2, 3):
             for f in zero.iter_forests(n):
@@ -152,6 +185,9 @@ def gen_cases(tier, want_mirror=True):
             for f in deep.iter_forests(n):
                 for holes in ("plain", "analysed"):
                     yield dict(fam="deep", f=f, pal=pal, pol=1, srs=SRS, n=n, holes=holes, mirror=False)
+        for n in (2, 3, 4):
+            for f in deep.iter_forests(n):
+                yield dict(fam="deep", f=f, pal=pal, pol=1, srs=SRS, n=n, tight=True)
         for depth in (2, 3, 4, 5, 6):
             for heavy in (0.5, 10.0, 20.0):
                 for micro in (2e-6, 2e-5, 1e-3):
